@@ -917,15 +917,44 @@ func (in *Interp) parseInt(s Str, signed bool) (*Term, bool) {
 			return nil, false
 		}
 	}
-	if len(b) > 18 {
-		panic(engineError{"parseInt: symbolic numeral longer than 18 digits"})
-	}
 	all := B(true)
 	for _, x := range b {
 		all = And(all, And(Bin("bvule", C(8, '0'), x), Bin("bvule", x, C(8, '9'))))
 	}
 	if !e.decide(all) {
 		return nil, false
+	}
+	// numerals longer than 18 digits: strip leading zeros (by decision), then decide the range
+	// check of strconv (value out of range is an error) without wrapping 64-bit arithmetic.
+	for len(b) > 18 && e.decide(Bin("=", b[0], C(8, '0'))) {
+		b = b[1:]
+	}
+	if len(b) > 20 || (signed && len(b) == 20) {
+		return nil, false
+	}
+	if len(b) == 20 {
+		h := Bin("bvadd", Bin("bvmul", Bin("bvsub", b[0], C(8, '0')), C(8, 10)), Bin("bvsub", b[1], C(8, '0')))
+		low := C(64, 0)
+		for _, x := range b[2:] {
+			low = Bin("bvadd", Bin("bvmul", low, C(64, 10)), Zext(Bin("bvsub", x, C(8, '0')), 64))
+		}
+		fits := Or(Bin("bvule", h, C(8, 17)), And(Bin("=", h, C(8, 18)), Bin("bvule", low, C(64, 446744073709551615))))
+		if !e.decide(fits) {
+			return nil, false
+		}
+	}
+	if len(b) == 19 && signed {
+		v := C(64, 0)
+		for _, x := range b {
+			v = Bin("bvadd", Bin("bvmul", v, C(64, 10)), Zext(Bin("bvsub", x, C(8, '0')), 64))
+		}
+		lim := uint64(1<<63 - 1)
+		if neg {
+			lim++
+		}
+		if !e.decide(Bin("bvule", v, C(64, lim))) {
+			return nil, false
+		}
 	}
 	acc := C(64, 0)
 	for _, x := range b {
